@@ -188,11 +188,13 @@ func solveOne(e *Enc, o *Obligation, idx int, opts solveOpts) {
 			fileI := base + ".inst.smt2"
 			os.WriteFile(fileI, []byte(hdr+q), 0o644)
 			ti := opts.TimeoutS
-			if ti > 8 {
-				ti = 8
-			}
 			ai := runSolver(solvers[0], fileI, ti)
 			o.Seconds += ai.seconds
+			if ai.result != "unsat" && ai.result != "sat" && opts.Retry {
+				// not decided in time (the instance set may well suffice): one longer attempt
+				ai = runSolver(solvers[0], fileI, 4*ti)
+				o.Seconds += ai.seconds
+			}
 			if ai.result == "unsat" {
 				o.File = fileI
 				record(ai, "/instantiated")
